@@ -6,8 +6,9 @@ set -u
 ID=$1; shift
 EXTRA="$@"
 lc=$(echo $ID | tr A-Z a-z)
-WT=/tmp/seed-$lc
-OUT=/verif/seeded/$ID
+R=${SEED_ROUND:-}          # e.g. SEED_ROUND=r2: worktree /tmp/seed-cNN-r2, stored under seeded/CNN-r2
+WT=/tmp/seed-$lc${R:+-$R}
+OUT=/verif/seeded/$ID${R:+-$R}
 export GOFLAGS=-mod=mod GOPROXY=off
 mkdir -p $OUT
 cp $WT/seed_patch.diff $OUT/patch.diff || exit 2
@@ -29,7 +30,7 @@ go test -vet=off -count=1 -run 'TestSeedDemo' ./$pkgdir/ 2>&1 | tail -3
 git apply seed_patch.diff
 echo "--- existing suite of touched packages WITH change (demo skipped)"
 pk=$(grep '^+++ b/' seed_patch.diff | sed 's|+++ b/||' | xargs -n1 dirname | sort -u)
-for d in $pk; do go test -vet=off -count=1 -skip TestSeedDemo ./$d/ 2>&1 | tail -2; done
+for d in $pk; do go test -vet=off -count=1 -skip TestSeedDemo ./$d/ > /tmp/seedsuite.$ID.$$.log 2>&1; grep -E "^(--- FAIL|FAIL|ok|panic)" /tmp/seedsuite.$ID.$$.log | head -8; done
 cd /verif
 # the checks are run against the scratch worktree (same HEAD as /repo + the seeded patch) through VERIF_REPO, so that
 # other runs against /repo are not disturbed; `git -C /repo apply <patch>; ./check ..; git -C /repo checkout -- .` is equivalent
